@@ -343,6 +343,9 @@ def lazy_taint(prog, f, dask_only=True, module_param=None):
                 inbody = child in p.body
                 while isinstance(tn, ast.UnaryOp) and isinstance(tn.op, ast.Not):
                     tn, inbody = tn.operand, not inbody       # `if not module == da: A else: B` reads as `if module == da: B else: A`
+                if isinstance(tn, ast.Compare) and len(tn.ops) == 1 and isinstance(tn.ops[0], (ast.Eq, ast.NotEq, ast.Is, ast.IsNot)) and \
+                        norm(tn.comparators[0]) == module_param and norm(tn.left) != module_param:
+                    tn = ast.Compare(left=tn.comparators[0], ops=tn.ops, comparators=[tn.left])      # `da == module`
                 t = norm(tn)
                 if t.startswith('%s != ' % module_param):
                     t, inbody = t.replace(' != ', ' == ', 1), not inbody
